@@ -21,13 +21,21 @@ pub fn generate(thorough: bool, seed: u64, em: &mut Emitter) {
             // exactly one invalid path, of one kind, at a random position of the list
             let kind = *r.pick(&["unknown_member", "index_out_of_range", "non_numeric_index", "no_leading_slash", "empty_path",
                                  "inside_disclosed", "through_scalar", "member_of_array", "negative_index", "index_overflow", "reserved_name",
-                                 "into_digest_list", "repeat_array_element", "repeat_member", "into_placeholder", "cnf_path_with_key_binding", "own_cnf_with_key_binding"]);
+                                 "into_digest_list", "repeat_array_element", "repeat_member", "into_placeholder", "cnf_path_with_key_binding", "own_cnf_with_key_binding",
+                                 "whitespace_around_path"]);
             let nodes = gen::all_nodes(&claims);
             let mut paths: Vec<String> = marks.iter().map(gen::render).collect();
             let bad: Option<(String, usize)> = match kind {
                 "unknown_member" => Some(("/no_such_member".to_string(), r.below(paths.len() + 1))),
                 "no_leading_slash" => nodes.first().map(|p| (gen::render(p)[1..].to_string(), r.below(paths.len() + 1))).filter(|(s, _)| !s.is_empty() && !s.starts_with('/')), // "/" + "" + "/A" minus its first character is the valid pointer "//A"
                 "empty_path" => Some((String::new(), r.below(paths.len() + 1))),
+                // white space is part of a path: in front of the first '/' the path has no leading slash, behind the last
+                // token it names another member (none of the generated names ends in white space) or no index
+                "whitespace_around_path" => nodes.first().map(|p| {
+                    let s = gen::render(p);
+                    let w = match r.below(6) { 0 => format!(" {}", s), 1 => format!("\n{}", s), 2 => format!("{} ", s), 3 => format!("{}\t", s), 4 => format!("\u{a0}{}", s), _ => format!("{}\n", s) };
+                    (w, r.below(paths.len() + 1))
+                }),
                 "index_out_of_range" | "non_numeric_index" | "member_of_array" | "negative_index" | "index_overflow" => {
                     // needs an array that is still reachable (not inside a marked node) at the chosen position: put it first
                     let arrays: Vec<&gen::TPath> = nodes.iter().filter(|p| gen::resolve(&claims, p).map_or(false, |v| v.is_array())).collect();
